@@ -9,31 +9,31 @@ open Rx Rx.Gen.SkipUntil
 def absSkipUntil (g : ShareObserver) : St2 := .skipUntil g.observer.isSome g.skip
 
 theorem tie_Su_a_next (g : ShareObserver) (v : Val) :
-    (ShareObserver.next g v).map (fun r => (absSkipUntil r.1, r.2)) = some (St2.step (absSkipUntil g) .a (.next v)) := by
+    (ShareObserver.next g v).map (fun r => (absSkipUntil r.1, r.2)) = some (Rs.lift (St2.step (absSkipUntil g) .a (.next v))) := by
   rcases g with ⟨_ | _, _ | _⟩ <;>
     rs_tie [ShareObserver.next, ShareObserver.is_skipping, Rx.Gen.RcObserver.RcObserver.next, absSkipUntil, St2.step, St2.guard]
 
 theorem tie_Su_a_error (g : ShareObserver) (e : Err) :
-    (ShareObserver.error g e).map (fun r => (absSkipUntil r.1, r.2)) = some (St2.step (absSkipUntil g) .a (.error e)) := by
+    (ShareObserver.error g e).map (fun r => (absSkipUntil r.1, r.2)) = some (Rs.lift (St2.step (absSkipUntil g) .a (.error e))) := by
   rcases g with ⟨_ | _, s⟩ <;>
     rs_tie [ShareObserver.error, Rx.Gen.RcObserver.RcObserver.error, absSkipUntil, St2.step, St2.guard]
 
 theorem tie_Su_a_complete (g : ShareObserver) :
-    (ShareObserver.complete g).map (fun r => (absSkipUntil r.1, r.2)) = some (St2.step (absSkipUntil g) .a .complete) := by
+    (ShareObserver.complete g).map (fun r => (absSkipUntil r.1, r.2)) = some (Rs.lift (St2.step (absSkipUntil g) .a .complete)) := by
   rcases g with ⟨_ | _, s⟩ <;>
     rs_tie [ShareObserver.complete, Rx.Gen.RcObserver.RcObserver.complete, absSkipUntil, St2.step, St2.guard]
 
 theorem tie_Su_b_next (g : SkipUntilNotifierObserver) (v : Val) :
-    (SkipUntilNotifierObserver.next g v).map (fun r => (absSkipUntil r.1, r.2)) = some (St2.step (absSkipUntil g) .b (.next v)) := by
+    (SkipUntilNotifierObserver.next g v).map (fun r => (absSkipUntil r.1, r.2)) = some (Rs.lift (St2.step (absSkipUntil g) .b (.next v))) := by
   rcases g with ⟨_ | _, s⟩ <;>
     rs_tie [SkipUntilNotifierObserver.next, ShareObserver.stop_skipping, absSkipUntil, St2.step, St2.guard]
 
 theorem tie_Su_b_error (g : SkipUntilNotifierObserver) (e : Err) :
-    (SkipUntilNotifierObserver.error g e).map (fun r => (absSkipUntil r.1, r.2)) = some (St2.step (absSkipUntil g) .b (.error e)) := by
+    (SkipUntilNotifierObserver.error g e).map (fun r => (absSkipUntil r.1, r.2)) = some (Rs.lift (St2.step (absSkipUntil g) .b (.error e))) := by
   rcases g with ⟨_ | _, s⟩ <;> rs_tie [SkipUntilNotifierObserver.error, absSkipUntil, St2.step, St2.guard]
 
 theorem tie_Su_b_complete (g : SkipUntilNotifierObserver) :
-    (SkipUntilNotifierObserver.complete g).map (fun r => (absSkipUntil r.1, r.2)) = some (St2.step (absSkipUntil g) .b .complete) := by
+    (SkipUntilNotifierObserver.complete g).map (fun r => (absSkipUntil r.1, r.2)) = some (Rs.lift (St2.step (absSkipUntil g) .b .complete)) := by
   rcases g with ⟨_ | _, s⟩ <;> rs_tie [SkipUntilNotifierObserver.complete, absSkipUntil, St2.step, St2.guard]
 
 
